@@ -415,6 +415,11 @@ def generate(rng, tier, n):
             cases.append(make_read_case(rng, fmt, True))
         else:
             cases.append(make_init_case(rng, rng.choice(['solomon', 'tsplib'])))
+    # every third case is read the way `vrp-cli solve <fmt> <file> [--round]` reads it: from a file, through the format
+    # registry of vrp-cli (extensions/solve/formats.rs get_formats(is_rounded, ..)); no random draw, the stream is unchanged
+    for k, c in enumerate(cases):
+        if k % 3 == 1:
+            c['via'] = 'cli'
     return cases
 
 
@@ -724,7 +729,8 @@ def nontrivial_key(c, impl):
 
 
 def classify(c, impl):
-    labs = ['op=' + c['op'], 'fmt=' + c['fmt'], 'stream=' + ('malformed' if c.get('malformed') else 'valid')]
+    labs = ['op=' + c['op'], 'fmt=' + c['fmt'], 'stream=' + ('malformed' if c.get('malformed') else 'valid'),
+            'read-through=' + ('vrp-cli format registry' if c.get('via') == 'cli' else 'vrp-scientific')]
     if 'panic' in impl:
         labs.append('result=panic')
     else:
